@@ -188,3 +188,38 @@ package mocker
 //@   requires captured: impType != nil && mocker != nil
 //@   ensures forwards_exactly: result0 == ite(rt_variadic(old(impType)), rv_callslice(value_of(old(originImp)), params), rv_call(value_of(old(originImp)), params))
 //@   panics_only_if only_if_the_callback_panics: rv_call_panics(value_of(originImp), params) || rt_kind(impType) != reflect.Func
+
+// ---- C02/C12 at the mocker layer: Cancel always reaches the guard --------------------------------------------------------
+// guard_cancelled[g]: ghost, set when g.Cancel() has run since g was applied.
+//@ ghost var guard_cancelled map[MockGuard]bool
+//@ extern func (github.com/tencent/goom.MockGuard).Cancel
+//@   assigns textmem, perm, mutex_held[addr(patch.patchesLock)], rw_wheld[addr(memory.memoryAccessLock)], guard_cancelled[self], anyfield(iface.PContext, canceled), anyfield(hack.Iface, Tab), anyfield(hack.Iface, Data)
+//@   ensures cancelled: guard_cancelled[self]
+//@ extern func (github.com/tencent/goom.MockGuard).Apply
+//@   assigns textmem, perm, mutex_held[addr(patch.patchesLock)], rw_wheld[addr(memory.memoryAccessLock)], guard_cancelled[self], anyfield(patch.Guard, applied)
+//@   ensures applied: !guard_cancelled[self]
+
+// patch-backed guard: Cancel restores the captured bytes of the entry window (package patch contracts)
+//@ func (p *patchMockGuard) Cancel
+//@   props C02 C11
+//@   requires guard: p != nil && (p.patchGuard != nil && p.patchGuard.applied ==> patch.guard_wf(p.patchGuard))
+//@   assigns textmem[p.patchGuard.origin : p.patchGuard.origin + 13], perm, mutex_held[addr(patch.patchesLock)], rw_wheld[addr(memory.memoryAccessLock)]
+//@   ensures original_bytes_back: p.patchGuard != nil && p.patchGuard.applied ==> patch.window_is(p.patchGuard.origin, p.patchGuard.originBytes)
+//@   ensures lock_released: !patch.locked()
+//@ func (p *patchMockGuard) Apply
+//@   props C02 C01 C11
+//@   requires guard: p != nil && patch.guard_wf(p.patchGuard)
+//@   assigns p.patchGuard.applied, textmem[p.patchGuard.origin : p.patchGuard.origin + 13], perm, mutex_held[addr(patch.patchesLock)], rw_wheld[addr(memory.memoryAccessLock)]
+//@   ensures diverted: p.patchGuard.applied && patch.window_is(p.patchGuard.origin, p.patchGuard.jumpBytes)
+//@   ensures lock_released: !patch.locked()
+
+// Whatever the mocker's flags say, Cancel must hand the live guard its Cancel: a mocker can be
+// re-applied through a retained handle after it was cancelled, and a Reset must still restore it.
+//@ func (m *baseMocker) Cancel
+//@   props C02 C12
+//@   requires receiver: m != nil
+//@   assigns m.when, m.origin, m.canceled, textmem, perm, mutex_held[addr(patch.patchesLock)], rw_wheld[addr(memory.memoryAccessLock)], guard_cancelled[m.guard],
+//@     | anyfield(iface.PContext, canceled), anyfield(hack.Iface, Tab), anyfield(hack.Iface, Data)
+//@   ensures live_guard_is_cancelled: m.guard != nil ==> guard_cancelled[m.guard]
+//@   ensures configuration_dropped: m.when == nil && m.canceled
+//@   ensures no_guard_no_write: m.guard == nil ==> forall a uintptr :: textmem[a] == old(textmem[a])
